@@ -457,7 +457,7 @@ func c03Generated(cs *vrt.Case, r *vrt.Rng, cfg mpclgen.Config) {
 		return pp
 	}
 	if gmw {
-		cfg.Division = false
+		cfg.Division, cfg.NoModulo = false, true
 		cs.Count("generated_compiled_for_GMW", 1)
 	}
 	p := mpclgen.Generate(r, cfg)
